@@ -7,12 +7,13 @@ From Coq Require Import String NArith Bool.
 Local Open Scope string_scope.
 
 Record fact := {
-  cf_field_type : string;   (* declared type of Mux.storeID, package names resolved to import paths *)
-  cf_shape : string;        (* "AddUint64" = atomic.AddUint64(&mux.storeID, d) | "MethodAdd" = mux.storeID.Add(d) | "other" | "none" *)
+  cf_field_type : string;   (* declared type of the Mux field f that is incremented, package names resolved to import paths *)
+  cf_shape : string;        (* what is rendered into the id: "AddUint64" = atomic.AddUint64(&mux.f, d) | "MethodAdd" = mux.f.Add(d),
+                               directly, through uint64(...) or through one local defined once by it | "other" | "none" *)
   cf_delta : string;        (* d *)
-  cf_base : string;         (* third argument of strconv.AppendUint *)
-  cf_renderings : nat;      (* strconv.AppendUint calls in ServeHTTP *)
-  cf_uses : nat             (* selector expressions x.storeID in package httpd *)
+  cf_base : string;         (* base of the rendering: reported, not a width matter (the dynamic check sees the digits) *)
+  cf_renderings : nat;      (* counter-related strconv.AppendUint / FormatUint calls reachable from ServeHTTP *)
+  cf_uses : nat             (* mentions x.f in package httpd *)
 }.
 
 (** bits of the counter as declared; 0 = not a recognised 64-bit counter *)
@@ -24,6 +25,5 @@ Definition check_counter (f : fact) : bool :=
   && ((String.eqb (cf_field_type f) "uint64" && String.eqb (cf_shape f) "AddUint64")
       || (String.eqb (cf_field_type f) "sync/atomic.Uint64" && String.eqb (cf_shape f) "MethodAdd"))
   && String.eqb (cf_delta f) "1"
-  && String.eqb (cf_base f) "36"
   && Nat.eqb (cf_renderings f) 1
   && Nat.eqb (cf_uses f) 1.     (* the increment is the only access: nothing resets or reads the counter elsewhere *)
